@@ -123,6 +123,8 @@ def gen_script(d: D, prof: dict, depth: int) -> list:
         r = d.i(0, 9)
         if r < 5:
             script.append(["wait"])
+            if d.p(prof.get("p_aflush", 0.04)):
+                script[-1] = ["aflush"]
         elif r < 8 or depth > 0:
             script.append(["yield", d.i(1, 3)])
         elif d.p(prof["p_embedded"] * 3):
@@ -154,6 +156,8 @@ def gen_worker(d: D, prof: dict, depth: int, n_hint: int) -> dict:
         ws["fault_kind"] = d.i(0, 4)
     if d.p(0.08):
         ws["partial"] = True
+    elif d.p(0.15):
+        ws["nested_qualname"] = True
     if depth == 0 and d.p(prof["p_embedded"] * 0.5):
         ws["call_op"] = gen_op(d, prof, d.pick(["cancel_group", "cancel", "gate", "lock"]), depth + 1)
         ws["call_op_at"] = d.i(0, max(0, n_hint - 1))
